@@ -12,7 +12,16 @@ import types
 
 from .core import ModelError
 
-NS = types.SimpleNamespace
+class NS(types.SimpleNamespace):
+    """Stand-in object: attributes as given by the rule; identity semantics (hashable, equal only to itself) like kyupy's Node/Line."""
+    __hash__ = object.__hash__
+
+    def __eq__(self, other):
+        return self is other
+
+    def __ne__(self, other):
+        return self is not other
+
 
 
 class Rec(dict):
@@ -23,6 +32,11 @@ class Rec(dict):
 _CALLS = {'len': len, 'min': min, 'max': max, 'sum': sum, 'int': int, 'abs': abs, 'any': any, 'all': all, 'bool': bool,
           'range': range, 'enumerate': enumerate, 'zip': zip, 'list': list, 'tuple': tuple, 'sorted': sorted, 'reversed': reversed,
           'next': lambda it, *d: next(iter(it), *d), 'set': set, 'str': str}
+
+
+def stub(fn):
+    fn._kv_stub = True
+    return fn
 
 
 def ev(e, env):
@@ -84,8 +98,27 @@ def ev(e, env):
     if isinstance(e, (ast.Tuple, ast.List)):
         r = [ev(x, env) for x in e.elts]
         return tuple(r) if isinstance(e, ast.Tuple) else r
-    if isinstance(e, ast.Dict) and not e.keys:
-        return {}
+    if isinstance(e, ast.Dict):
+        return {ev(k, env): ev(v, env) for k, v in zip(e.keys, e.values)}
+    if isinstance(e, ast.DictComp):
+        out = {}
+
+        def dgen(k, env2):
+            if k == len(e.generators):
+                out[ev(e.key, env2)] = ev(e.value, env2)
+                return
+            g = e.generators[k]
+            for item in ev(g.iter, env2):
+                env3 = dict(env2)
+                bind(g.target, item, env3)
+                if all(ev(c, env3) for c in g.ifs):
+                    dgen(k + 1, env3)
+        dgen(0, env)
+        return out
+    if isinstance(e, ast.Call) and isinstance(e.func, ast.Attribute) and e.func.attr in ('values', 'items', 'keys', 'get') and not e.keywords:
+        b = ev(e.func.value, env)
+        if isinstance(b, dict) and not isinstance(b, Rec):
+            return getattr(b, e.func.attr)(*[ev(a, env) for a in e.args]) if e.func.attr == 'get' else list(getattr(b, e.func.attr)())
     if isinstance(e, (ast.GeneratorExp, ast.ListComp)):
         out = []
 
@@ -112,6 +145,11 @@ def ev(e, env):
             'replace', 'isspace', 'count') and not e.keywords:
         b = ev(e.func.value, env)
         if isinstance(b, str):
+            return getattr(b, e.func.attr)(*[ev(a, env) for a in e.args])
+    if isinstance(e, ast.Call) and isinstance(e.func, ast.Attribute) and not e.keywords:
+        # a method of one of the rule's stand-in objects: the rule supplies a recording stub (marked _kv_stub)
+        b = ev(e.func.value, env)
+        if isinstance(b, NS) and callable(getattr(b, e.func.attr, None)) and getattr(getattr(b, e.func.attr), '_kv_stub', False):
             return getattr(b, e.func.attr)(*[ev(a, env) for a in e.args])
     raise ModelError(f'minieval: expression outside the subset: {ast.unparse(e)[:80]}')
 
@@ -157,6 +195,10 @@ def run(stmts, env):
         if isinstance(st, ast.Return):
             raise Returned(ev(st.value, env) if st.value is not None else None)
         if isinstance(st, ast.Expr) and isinstance(st.value, ast.Constant):
+            continue
+        if isinstance(st, ast.Expr) and isinstance(st.value, ast.Call) and isinstance(st.value.func, ast.Attribute) \
+                and st.value.func.attr not in ('append', 'extend', 'reverse', 'insert', 'add'):
+            ev(st.value, env)      # stub method of a stand-in object (anything else raises ModelError)
             continue
         if isinstance(st, ast.Expr) and isinstance(st.value, ast.Call) and isinstance(st.value.func, ast.Attribute) \
                 and st.value.func.attr in ('append', 'extend', 'reverse', 'insert', 'add') and not st.value.keywords:
